@@ -234,6 +234,65 @@ class AV:
     __hash__ = None
 
 
+class GhostList:
+    """Abstraction of a Python list across a loop cut: symbolic length, the last two elements, and a
+    contract-supplied ghost summary of the forgotten prefix (updated by `on_append`)."""
+    _pyvc_symbolic = True
+
+    def __init__(self, ctx, name, n, last, prev, summary=None, on_append=None):
+        self.ctx, self.name, self.n, self.last, self.prev = ctx, name, n, last, prev
+        self.summary = summary
+        self.on_append = on_append
+
+    def append(self, x):
+        if self.on_append is not None:
+            self.on_append(self, x)
+        self.prev, self.last = self.last, x
+        self.n = self.n + 1
+
+    def __getitem__(self, i):
+        if isinstance(i, int) and i == -1:
+            return self.last
+        if isinstance(i, int) and i == -2:
+            return self.prev
+        raise NotImplementedError("GhostList[%r]: only [-1] and [-2] are tracked across the cut" % (i,))
+
+    def xlen(self):
+        return X(self.n)
+
+    def __iter__(self):
+        return iter([self.last])
+
+
+def xlen(o):
+    """`len` as seen by instrumented functions."""
+    if isinstance(o, GhostList):
+        return o.xlen()
+    return len(o)
+
+
+class _XIntMeta(type):
+    def __instancecheck__(cls, inst):
+        return isinstance(inst, int)
+
+    def __subclasscheck__(cls, sub):
+        return issubclass(sub, int)
+
+
+class xint(int, metaclass=_XIntMeta):
+    """`int` as seen by instrumented functions: identity on integer-sorted exact scalars."""
+
+    def __new__(cls, v=0, *a):
+        if isinstance(v, X):
+            t = v.v
+            if z3.is_expr(t):
+                if z3.is_int(t):
+                    return v
+                return X(z3.ToInt(t))
+            return int(t)
+        return int(v, *a)
+
+
 class UFun:
     """Uninterpreted callback.  sorts in {'real','int','bool','vec'}."""
 
@@ -410,6 +469,7 @@ class Ctx:
         inv = spec["invariant"](self, _V(loc, K))
         for nm, c in _named(inv):
             self.check("%s#loop%s.init[%s]" % (self.ex.fn_label, K, nm), c)
+        st["entry_state"] = dict(loc)
 
     def loop_havoc(self, K, loc, names):
         spec = self.ex.loop_specs[K]
@@ -419,7 +479,7 @@ class Ctx:
             cur = loc.get(n, _MISSING)
             ty = types.get(n)
             if ty is None:
-                if cur is _MISSING:
+                if cur is _MISSING or isinstance(cur, Undefined):
                     out.append(Undefined(n))
                     continue
                 ty = _infer_type(cur)
@@ -452,7 +512,8 @@ class Ctx:
             if spec.get("variant"):
                 st["variant0"] = spec["variant"](self, _V(loc, K))
             return True
-        # back edge: re-establish the invariant, then stop this path
+        # back edge: re-establish the invariant; then the guard is evaluated once more so that the
+        # body-invariant (states in which the body starts) can be re-established as well
         inv = spec["invariant"](self, _V(loc, K))
         for nm, c in _named(inv):
             self.check("%s#loop%s.preserve[%s]" % (self.ex.fn_label, K, nm), c)
@@ -460,7 +521,37 @@ class Ctx:
             v1 = spec["variant"](self, _V(loc, K))
             v0 = st["variant0"]
             self.check("%s#loop%s.variant-decreases" % (self.ex.fn_label, K), z3.And(v1 < v0, v0 >= 0))
-        raise StopPath()
+        if not spec.get("body_invariant"):
+            raise StopPath()
+        st["phase"] = 2
+        return True
+
+    def loop_body_init(self, K, loc):
+        """guard holds in the state in which the loop is entered: body-invariant initiation"""
+        spec = self.ex.loop_specs[K]
+        for nm, c in _named(spec["body_invariant"](self, _V(loc, K))):
+            self.check("%s#loop%s.body-init[%s]" % (self.ex.fn_label, K, nm), c)
+
+    def loop_exit(self, K):
+        """guard evaluated to False"""
+        if self.loop_state[K]["phase"] == 2:
+            raise StopPath()
+
+    def loop_body(self, K, loc):
+        """guard evaluated to True: the body is about to start"""
+        spec = self.ex.loop_specs[K]
+        st = self.loop_state[K]
+        binv = spec.get("body_invariant")
+        if st["phase"] == 2:
+            for nm, c in _named(binv(self, _V(loc, K))):
+                self.check("%s#loop%s.body-preserve[%s]" % (self.ex.fn_label, K, nm), c)
+            raise StopPath()
+        if binv is not None:
+            for nm, c in _named(binv(self, _V(loc, K))):
+                self.assume(c, silent=True)
+            r, _ = solve(self.all_assertions(), self.ex.branch_timeout_ms, self.ex.stats, want_model=False)
+            if r == "unsat":
+                raise StopPath()
 
     def for_range(self, K, *args):
         a = [val(x) if isinstance(x, X) else x for x in args]
@@ -613,7 +704,7 @@ class Explorer:
     def names(self):
         return sorted(self.results)
 
-    def verdict(self, name):
+    def verdict(self, name, replay=None):
         rs = self.results.get(name)
         if not rs:
             raise Refuted("obligation-not-generated",
@@ -624,7 +715,7 @@ class Explorer:
         if sat:
             v, model, path, note = sat[0]
             raise Refuted("cex", "counter-model on %d of %d paths; first: %s\nnote: %s\ndecisions: %s" % (
-                len(sat), len(rs), model, note, path), inputs=model)
+                len(sat), len(rs), model, note, path), inputs=model, replay=replay)
         if unk:
             raise Undecided("%d of %d path VCs undecided (z3+cvc5): %s" % (len(unk), len(rs), unk[0][3]))
         return "%d path VCs unsat" % len(rs)
@@ -690,8 +781,10 @@ def _locals():
 
 
 class _Cutter(ast.NodeTransformer):
-    def __init__(self, targets):
+    def __init__(self, targets, extra=None, binv=()):
         self.targets = targets  # id(node) -> K
+        self.extra = extra or {}
+        self.binv = set(binv)
 
     def _cut(self, node, K):
         if node.orelse:
@@ -714,9 +807,19 @@ class _Cutter(ast.NodeTransformer):
             pre.append(ast.Assign(targets=[ast.Name(id=idx, ctx=ast.Store())],
                                   value=ast.Attribute(value=ast.Name(id=rng, ctx=ast.Load()), attr="lo", ctx=ast.Load())))
         pre.append(ast.Expr(value=_call("loop_enter", Kc, _locals())))
+        if K in self.binv:
+            if isinstance(node, ast.For):
+                t0 = ast.Compare(left=ast.Name(id=idx, ctx=ast.Load()), ops=[ast.Lt()],
+                                 comparators=[ast.Attribute(value=ast.Name(id=rng, ctx=ast.Load()), attr="hi", ctx=ast.Load())])
+            else:
+                t0 = copy.deepcopy(node.test)
+            pre.append(ast.If(test=t0, body=[ast.Expr(value=_call("loop_body_init", Kc, _locals()))], orelse=[]))
         names = [n for n in asg.names]
         if isinstance(node, ast.For) and node.target.id in names:
             names.remove(node.target.id)
+        for n in self.extra.get(K, ()):
+            if n not in names:
+                names.append(n)
         if names:
             tgt = ast.Tuple(elts=[ast.Name(id=n, ctx=ast.Store()) for n in names], ctx=ast.Store())
             pre.append(ast.Assign(targets=[tgt], value=_call(
@@ -727,14 +830,18 @@ class _Cutter(ast.NodeTransformer):
                                   value=_call("range_next_index", Kc, ast.Name(id=rng, ctx=ast.Load()))))
             test = ast.Compare(left=ast.Name(id=idx, ctx=ast.Load()), ops=[ast.Lt()],
                                comparators=[ast.Attribute(value=ast.Name(id=rng, ctx=ast.Load()), attr="hi", ctx=ast.Load())])
-            body.append(ast.If(test=ast.UnaryOp(op=ast.Not(), operand=test), body=[ast.Break()], orelse=[]))
+            body.append(ast.If(test=ast.UnaryOp(op=ast.Not(), operand=test),
+                               body=[ast.Expr(value=_call("loop_exit", Kc)), ast.Break()], orelse=[]))
+            body.append(ast.Expr(value=_call("loop_body", Kc, _locals())))
             body.append(ast.Assign(targets=[ast.Name(id=node.target.id, ctx=ast.Store())],
                                    value=ast.Name(id=idx, ctx=ast.Load())))
             body.append(ast.Assign(targets=[ast.Name(id=idx, ctx=ast.Store())],
                                    value=ast.BinOp(left=ast.Name(id=idx, ctx=ast.Load()), op=ast.Add(),
                                                    right=ast.Constant(value=1))))
         else:
-            body.append(ast.If(test=ast.UnaryOp(op=ast.Not(), operand=node.test), body=[ast.Break()], orelse=[]))
+            body.append(ast.If(test=ast.UnaryOp(op=ast.Not(), operand=node.test),
+                               body=[ast.Expr(value=_call("loop_exit", Kc)), ast.Break()], orelse=[]))
+            body.append(ast.Expr(value=_call("loop_body", Kc, _locals())))
         body.extend(node.body)
         loop = ast.While(test=_call("loop_head", Kc, _locals()), body=body, orelse=[])
         return pre + [loop]
@@ -760,7 +867,8 @@ def instrument(module_obj, modname, qualname, loop_specs, extra_globals=None):
         if K >= len(loops):
             raise LookupError("%s:%s has %d loops; contract names loop %d" % (modname, qualname, len(loops), K))
         targets[id(loops[K])] = K
-    node = _Cutter(targets).visit(node)
+    node = _Cutter(targets, {K: sp.get("also_havoc", ()) for K, sp in loop_specs.items()},
+                   [K for K, sp in loop_specs.items() if sp.get("body_invariant")]).visit(node)
     node.decorator_list = []
     node.returns = None
     for a in node.args.args + node.args.kwonlyargs + node.args.posonlyargs:
@@ -770,6 +878,8 @@ def instrument(module_obj, modname, qualname, loop_specs, extra_globals=None):
     ns = dict(vars(module_obj))
     proxy = _CtxProxy()
     ns["__vc"] = proxy
+    ns["len"] = xlen
+    ns["int"] = xint
     if extra_globals:
         ns.update(extra_globals)
     exec(compile(m, loader.module_path(modname), "exec"), ns)
